@@ -12,9 +12,9 @@ import (
 
 // NoopSolver is an acmez.Solver that records its calls and does nothing else.
 type NoopSolver struct {
-	mu                sync.Mutex
+	mu                 sync.Mutex
 	Presents, CleanUps int
-	FailPresent       error
+	FailPresent        error
 }
 
 func (n *NoopSolver) Present(context.Context, acme.Challenge) error {
